@@ -267,6 +267,16 @@ impl Scenario for History {
                     ops.push(HOp::CloseUnsaved { file: cf });
                 }
             }
+            // a conftest stored in ISO-8859-1 (legal with a coding cookie): looked at in the editor, closed again unmodified
+            if !scan_first && !spec.extra.iter().any(|(f, _)| f.ends_with(".py")) && rng.chance(100) {
+                if let Some(cf) = spec.files.iter().find(|f| f.rel.ends_with("conftest.py") && f.items.iter().any(|i| matches!(i, Item::Star { .. } | Item::Import { .. } | Item::Plugins { .. }))).map(|f| f.rel.clone()) {
+                    let text = format!("# -*- coding: latin-1 -*-\n# Auteur: Andr\u{e9}\n{}", render(&spec.file(&cf).unwrap().items).text);
+                    spec.extra.push((cf.clone(), format!("@latin1:{}", text)));
+                    ops.retain(|o| !matches!(o, HOp::Analyze { file, .. } | HOp::OpenClose { file } | HOp::Close { file } | HOp::CloseUnsaved { file } if *file == cf));
+                    ops.push(HOp::Query);
+                    ops.push(HOp::Close { file: cf });
+                }
+            }
             ops.push(HOp::Query);
         }
         let _ = disk;
@@ -469,7 +479,8 @@ fn run_history(prop: &str, spec: &WsSpec, ops: &[HOp], root: &Path, scan_first: 
     // files whose on-disk text was overwritten by the generator (e.g. made unparsable)
     for (f, t) in &spec.extra {
         if disk.contains_key(f) {
-            disk.insert(f.clone(), t.clone());
+            // (`@latin1:` = stored in ISO-8859-1; the text is what an editor shows for it)
+            disk.insert(f.clone(), t.strip_prefix("@latin1:").unwrap_or(t).to_string());
         }
     }
     let mut unsaved_close = false;
